@@ -315,6 +315,16 @@ def check(ctx, case):
                 why = check_string_of(x, r.gets(key))
                 if why:
                     return {'op': 'xp-string', 'via': key, 'x': repr(x), 'got': r.gets(key), 'why': why, 'mag': mc}
+            # a COMPUTED number (an XNumber taken from the object factory), after other numbers have been computed, converted to strings
+            # and released on the same execution context: the conversion must not depend on that history
+            r = d.call('xpath', [('var', 'v\x1fn\x1fx' + case['x']), ('prior', 'string(1 div 4)'), ('prior', 'concat(7 * 6, 1 div 3)')], doc='<a/>',
+                       expr='string($v * 1)', ctx='/', only='gs')
+            if r.has('g.err') or r.has('compile.err'):
+                return {'op': 'xp-string-computed', 'x': repr(x), 'why': 'error', 'err': r.gets('g.errmsg') or r.gets('compile.errmsg'), 'mag': mc}
+            for key in ('g.str', 's'):
+                why = check_string_of(x, r.gets(key))
+                if why:
+                    return {'op': 'xp-string-computed', 'via': key, 'x': repr(x), 'got': r.gets(key), 'why': why, 'mag': mc}
             return None
         exp = {'round': ref_round, 'floor': ref_floor, 'ceiling': ref_ceiling}[f](x)
         for key in ('g.num', 'n'):
